@@ -2,6 +2,7 @@ import Rv.Model.Locks
 import Rv.Model.Key
 import Rv.Generated.LockFacts
 import Rv.Generated.LockTable
+import Rv.Generated.Shapes
 import Rv.Lemmas.Locks
 /-
   C14 — no interleaving deadlocks the cache or a request.
@@ -20,6 +21,14 @@ import Rv.Lemmas.Locks
 -/
 namespace Rv.Props.C14
 open Rv.Locks Rv.Generated
+
+/-- closures defined in the cache constructors (the janitor's function table, the OnChange listeners) call
+    methods of the object under construction; the model resolves such calls through `closureOwner`, and the
+    CURRENT source agrees with that table (so the removal and eviction paths INTO `ensureRemove` /
+    `deleteInternal` are part of the analysed programs, not leaves). -/
+theorem closure_owners_as_assumed :
+    (Rv.Generated.closureOwners.all (fun p => closureOwner p.1 = p.2) && decide (Rv.Generated.closureOwners.length = 3)) = true := by
+  decide
 
 /-- (1a) the candidate table is justified by the extracted programs. -/
 theorem table_is_postfix : postFix lockFacts lockTable = true := by decide +kernel
